@@ -80,8 +80,8 @@ Proof.
       step_cases E; auto.
     split; auto. destruct (Nat.eq_dec r r0); [subst|rewrite upd_neq; auto].
     exfalso. assert (status (lbase ls) r0 = Pending) by (apply (i_held _ (l_base _ L) t); rewrite E0; reflexivity). congruence.
-  - destruct (_ && _); try discriminate. inversion H; subst; auto.
-  - destruct (_ && _); try discriminate. inversion H; subst; auto.
+  - destruct (_ && _); try discriminate. try match type of H with context [TreiberRows.movector_objs ?x] => destruct (TreiberRows.movector_objs x) end. inversion H; subst; auto.
+  - destruct (_ && _); try discriminate. try match type of H with context [TreiberRows.swap_objs ?x ?y] => destruct (TreiberRows.swap_objs x y) end. inversion H; subst; auto.
   - destruct (o_live (objs ls o)); try discriminate. destruct (o_raw (objs ls o)) as [r0|].
     + destruct (o_fl (objs ls o)); try discriminate. destruct (step (lbase ls) (DBegin t r0)) as [s'|] eqn:E; try discriminate.
       inversion H; subst; clear H; simpl. step_cases E. split; auto.
